@@ -1076,6 +1076,12 @@ func (x *Exec) contractHeaps(c *Contract, call *ssa.CallCommon, cur *State, li *
 				if tv, ok := x.constVal(cst).(TermVal); ok {
 					t = tv.T
 				}
+			} else if li != nil {
+				// a load, inside the loop, of a local the loop never assigns (typically the receiver)
+				deps := map[string]bool{}
+				if ht, ok := x.headerTerm(cur, li, argVals[i], deps, 0); ok && len(deps) == 0 && ht.Sort == x.E.SortOf(pt) {
+					t = ht
+				}
 			}
 		}
 		if t == nil {
@@ -1106,7 +1112,7 @@ func (x *Exec) contractHeaps(c *Contract, call *ssa.CallCommon, cur *State, li *
 				all = true
 			}
 			for _, t := range ts {
-				if t.Key != nil && (cur == nil || mentions(t.Key, dummies) || x.dependsOnLoopState(t.Key, li)) {
+				if t.Key != nil && (cur == nil || mentions(t.Key, dummies) || (li != nil && !li.keyCheckLater && x.dependsOnLoopState(t.Key, li))) {
 					t.Key = nil
 				}
 				targets = append(targets, t)
